@@ -103,9 +103,26 @@ PathBody ==
              [v |-> ("PATH" :> VRight(U32(100))) @@ ("LSECRET" :> U8(0)) @@ ("RSECRET" :> U16(514)), omit |-> <<"LSECRET">>],
              [v |-> ("PATH" :> VLeft(U8(5))) @@ ("LSECRET" :> U8(5)) @@ ("RSECRET" :> U16(513)), omit |-> <<>>]>>]
 
-PrFamilies == {[b |-> i] : i \in 1..Len(Bodies)} \cup {[b |-> 0]}
+\* a loop-heavy branch and a cheap branch chosen by a witness (the cost of a program is no reason to refuse it)
+LoopDefs == <<IFn("count", <<Param("acc", T8), Param("lim", T8), Param("i", TU(8))>>, <<TEither(T8, T8)>>,
+                  BlkE(<<>>, EMatch(JetE("eq_8", <<V("acc"), V("lim")>>),
+                                    <<Arm(MTrue, ELeft(V("acc"))),
+                                      Arm(MFalse, BlkE(<<SLet(PTup(<<PIgn, PId("s")>>), TTup(<<TBool, T8>>),
+                                                               JetE("add_8", <<V("acc"), Dec(1)>>))>>, ERight(V("s"))))>>)))>>
+LoopBody ==
+  [ss |-> <<SExpr(EMatch(EWit("PATH"),
+                         <<Arm(MLeft("lim", T8), Blk(<<SLet(PId("r"), TEither(T8, T8), ECall(CForWhile("count"), <<Dec(0), V("lim")>>)),
+                                                       A(JetE("eq_8", <<Call1(CUnwrapLeft(T8), V("r")), V("lim")>>))>>)),
+                           Arm(MRight("h", T32), Blk(<<Chk("check_lock_height", V("h"))>>))>>))>>,
+   w |-> <<<<"PATH", TEither(T8, T32)>>>>,
+   pts |-> {("PATH" :> VLeft(U8(3))), ("PATH" :> VLeft(U8(15))), ("PATH" :> VLeft(U8(40))), ("PATH" :> VRight(U32(100))), ("PATH" :> VRight(U32(101)))}]
+
+PrFamilies == {[b |-> i] : i \in 1..Len(Bodies)} \cup {[b |-> 0], [b |-> -1]}
 PrProgramsOf(f) ==
-  IF f.b = 0
+  IF f.b = -1
+  THEN {[items |-> LoopDefs \o <<Main(Blk(LoopBody.ss))>>, wdecls |-> LoopBody.w, args |-> EmptyFn, space |-> SetToSeq(LoopBody.pts),
+         envs |-> Envs, prune |-> TRUE, tag |-> "prune"]}
+  ELSE IF f.b = 0
   THEN {[items |-> <<Main(Blk(PathBody.ss))>>, wdecls |-> PathBody.w, args |-> EmptyFn,
          space |-> [i \in 1..Len(PathBody.pts) |-> PathBody.pts[i].v],
          omit |-> [i \in 1..Len(PathBody.pts) |-> PathBody.pts[i].omit],
